@@ -113,7 +113,7 @@ fn check_one(v: f64, is1904: bool, deep: bool, fails: &mut Vec<Fail>) -> Option<
 }
 
 pub fn check(rep: &Report) {
-    rep.rule("every whole day 0..=2958465 x {1900,1904} x 16 fixed fractions (ms / half-ms / day boundaries) through ExcelDateTime::as_datetime, plus (every 97th day and all days < 1500) the as_date/as_time/as_duration and Data::Int/Float paths; plus special values; non-trivial = serial with a non-zero fraction or inside the first 1500 days");
+    rep.rule("every whole day 0..=2958465 x {1900,1904} x 16 fixed fractions (ms / half-ms / day boundaries) through ExcelDateTime::as_datetime, plus (every 97th day and all days < 1500) the as_date/as_time/as_duration and Data::Int/Float paths; plus special values (non-finite, huge, negative floats; integers up to i64::MIN / MAX, which must convert like the float of the same number); non-trivial = serial with a non-zero fraction or inside the first 1500 days");
     rep.assume("oracle: Hinnant civil_from_days + exact i128 millisecond rounding; within max(2^-9 ms, 3 ulp of the f64 millisecond product) of a rounding tie either neighbour is accepted (the statement says 'rounded to the millisecond', the f64 product cannot resolve closer)");
     rep.assume("serials in [60,61) of the 1900 system have no calendar date; only monotonicity is asserted there");
     let fr = fractions();
@@ -240,6 +240,21 @@ pub fn check(rep: &Report) {
             }
         }
     }
+    // plain Int cells are 1900-system serials like Float cells: every path gives what the Float of the same number gives, and
+    // an integer beyond the calendar (also one whose low 32 bits alone would be a valid serial) is None, never a date
+    for n in [0i64, 1, 59, 60, 61, 45_000, 2_958_465, 2_958_466, 2_147_483_647, 2_147_483_648, 4_294_967_296, 4_294_967_296 + 45_000, 1 << 40, i64::MAX, -1, -45_000, -2_147_483_648, -4_294_967_296 + 45_000, i64::MIN] {
+        rep.eval(1);
+        let r = guarded(|| (Data::Int(n).as_datetime(), Data::Int(n).as_date(), Data::Int(n).as_time(), Data::Float(n as f64).as_datetime(), Data::Float(n as f64).as_date(), Data::Float(n as f64).as_time(), calamine::DataRef::Int(n).as_datetime()));
+        rep.case(hash_of(&("int", n)), true, hash_of(&format!("{r:?}")));
+        let replay = || Replay { json: json!({"int_serial": n}), files: vec![] };
+        match r {
+            Err(p) => rep.fail("special/int/panic", &format!("conversion of Data::Int({n}) panicked: {p}"), replay),
+            Ok(t) => {
+                if !(0..=2_958_465).contains(&n) && (t.0.is_some() || t.1.is_some() || t.6.is_some()) && n.unsigned_abs() > 3_000_000 { rep.fail("special/int/wrong-date", &format!("Data::Int({n}) converted to a date: {:?}", t.0.or(t.6)), replay); }
+                else if (t.0, t.1, t.2) != (t.3, t.4, t.5) || t.6 != t.3 { rep.fail("special/int/int-vs-float", &format!("Data::Int({n}) gives {:?} / {:?} / {:?} (DataRef: {:?}), Data::Float({n}.0) gives {:?} / {:?} / {:?}", t.0, t.1, t.2, t.6, t.3, t.4, t.5), replay); }
+            }
+        }
+    }
     rep.add_states((MAX_DAY as u64 + 1) * 2 * fr.len() as u64, (MAX_DAY as u64 + 1) * 2 * fr.len() as u64);
     rep.trace(rep.evaluations.load(std::sync::atomic::Ordering::Relaxed));
     for (i, f) in fr.iter().enumerate() {
@@ -257,6 +272,13 @@ pub fn check(rep: &Report) {
 pub fn replay(path: &str) -> i32 {
     let Ok(s) = std::fs::read_to_string(path) else { return 2 };
     let v: serde_json::Value = serde_json::from_str(&s).unwrap();
+    if let Some(n) = v.get("int_serial").and_then(|n| n.as_i64()) {
+        let run = || guarded(|| format!("Int: {:?} / Float: {:?}", Data::Int(n).as_datetime(), Data::Float(n as f64).as_datetime()));
+        let (a, b) = (run(), run());
+        if a != b { eprintln!("MACHINERY: replay not deterministic"); return 2; }
+        println!("Data::Int({n})\nrecorded: {}\nobserved now: {a:?}", v["what"]);
+        return 0;
+    }
     let serial = match v.get("serial_bits").and_then(|b| b.as_str()) {
         Some(b) => f64::from_bits(u64::from_str_radix(b, 16).unwrap()),
         None => v["serial"].as_f64().unwrap(),
